@@ -142,7 +142,7 @@ def gen_leaf(rng, sp, S='S'):
     import odl
     F = odl.solvers
     if sp.parts:
-        choices = ['sep', 'sep', 'sep', 'l2sq', 'const', 'indzero', 'l2', 'ball2', 'quad']
+        choices = ['sep', 'sep', 'sep', 'l2sq', 'const', 'indzero', 'l2', 'ball2', 'quad', 'l1', 'ballinf']
     else:
         choices = ['l1', 'l2', 'linf', 'ball1', 'ball2', 'ballinf', 'l2sq', 'const', 'zero', 'indzero',
                    'huber', 'huber', 'quad', 'quad']
